@@ -22,12 +22,19 @@ SessionProp(stream, sh, log) ==
   /\ \A i \in 1..Len(log) : log[i].t = "out" => log[i].ret = "same"          \* each slice is the bytes of the stream at its place
   /\ EndOf(log) \in AllowedEnd(stream, sh)                                   \* never a panic, never a message from a truncated tail
   /\ Len(SelectSeq(log, LAMBDA x : x.t = "end")) = 1 /\ log[Len(log)].t = "end"
-ReaderOk(e) == /\ SessionProp(e.stream, e.sh, e.log) /\ e.pm = e.sp         \* read_message = parse of each delivered piece, then the same end
+\* read_message = parse of each delivered piece.  e.spe: the sequence sp ended because a delivered piece did not parse (then read_message
+\* must end there too, with an error); otherwise sp ends with the ending of the slice session, and read_message - another call sequence
+\* over the same bytes - may end in any way the statement allows for this stream (a truncated tail: end of stream or an error)
+ReaderOk(e) == /\ SessionProp(e.stream, e.sh, e.log)
+               /\ IF e.spe THEN e.pm = e.sp
+                  ELSE LET n == Len(e.sp) IN /\ Len(e.pm) = n /\ n >= 1 /\ SubSeq(e.pm, 1, n - 1) = SubSeq(e.sp, 1, n - 1)
+                                             /\ e.pm[n].v \in AllowedEnd(e.stream, e.sh)
                /\ \A i \in 1..Len(e.pm) : e.pm[i].v # "panic"               \* no byte stream makes read_message panic (wherever the panic arises)
+OutRets(log) == LET o == SelectSeq(log, LAMBDA x : x.t = "out") IN [i \in 1..Len(o) |-> o[i].ret]
 EndCls(log) == LET x == SelectSeq(log, LAMBDA y : y.t = "end") IN IF x = <<>> THEN "none" ELSE x[1].cls
 PairOk(e) ==  \* C08: same messages, same kind of terminal outcome (end of stream, or an error of the same class), no panic
   /\ Outs(e.alog) = Outs(e.blog) /\ EndOf(e.alog) = EndOf(e.blog) /\ EndOf(e.alog) \in {"eos", "err"} /\ EndCls(e.alog) = EndCls(e.blog)
-  /\ \A i \in 1..Len(e.alog) : e.alog[i].t = "out" => e.alog[i].ret = "same"
+  /\ OutRets(e.alog) = OutRets(e.blog)          \* slice for slice the same relation to the stream's bytes (that they ARE the stream's bytes is C07)
   /\ e.am = e.bm
 \* growth beyond the listed properties: a caller that goes on after errors reaches the end of the stream (named deviation: the readers
 \* continue wherever the source stands; the property C07 says nothing about calls after an error)
